@@ -17,7 +17,7 @@ HERE = os.path.dirname(os.path.dirname(os.path.abspath(__file__)))
 sys.path.insert(0, HERE)
 from sa.core import AnalysisError, Program  # noqa: E402
 from sa.report import Ctx  # noqa: E402
-from sa.selftest import patch_edits  # noqa: E402
+from sa.selftest import apply_edits, patch_edits  # noqa: E402
 
 PROPS = [f'C{i:02d}' for i in range(1, 21)]
 _PROG = None
@@ -54,11 +54,9 @@ def work(job):
     b, err = base(prop)
     if err:
         return job, 'refused', f'baseline {err}'
-    srcs = dict(prog0().sources)
-    for path, old, new in patch_edits(open(patch_path, encoding='utf-8').read()):
-        if path not in srcs or srcs[path].count(old) != 1:
-            return job, 'skip', f'hunk of {path} does not apply exactly once'
-        srcs[path] = srcs[path].replace(old, new)
+    srcs, why = apply_edits(prog0().sources, patch_edits(open(patch_path, encoding='utf-8').read()))
+    if srcs is None:
+        return job, 'skip', why
     got, err = run_prop(Program(srcs), prop)
     if err:
         return job, 'refused', err[:200]
@@ -87,13 +85,13 @@ def main():
     tot = {'silent': 0, 'refused': 0, 'ALARM': 0}
     for p in refs:
         outs = {prop: res[(p, prop)] for prop in PROPS}
-        worst = 'ALARM' if any(o == 'violation' for o, _ in outs.values()) else 'refused' if any(o == 'refused' for o, _ in outs.values()) else 'silent'
+        worst = 'ALARM' if any(o == 'violation' for o, _ in outs.values()) else 'refused' if any(o in ('refused', 'skip') for o, _ in outs.values()) else 'silent'
         tot[worst] += 1
         if worst != 'silent' or verbose:
             name = os.path.relpath(p, rdir)
             print(f'refactoring {name}: {worst}')
             for prop, (o, t) in outs.items():
-                if o in ('violation', 'refused'):
+                if o in ('violation', 'refused', 'skip'):
                     print(f'     {prop} {o}: {t}')
     print(f'REFACTORINGS {len(refs)}: silent {tot["silent"]}, refused (exit 2) {tot["refused"]}, FALSE ALARM (exit 1) {tot["ALARM"]}')
     st = {'violation': 0, 'refused': 0, 'silent': 0, 'skip': 0}
